@@ -199,6 +199,7 @@ def scenario_t(position, duration, after):
   after: what an abandoned body does when it finally wakes (only for duration > timeout)."""
   htf.init()
   import openhtf as h  # pylint: disable=g-import-not-at-top
+  from openhtf.util import threads as threads_mod  # pylint: disable=g-import-not-at-top
   TIMEOUT = 10.0
 
   def fn(sched):
@@ -208,6 +209,17 @@ def scenario_t(position, duration, after):
     if after == 'repeat2':
       topts.update(repeat_on_timeout=True, repeat_limit=2)      # times out on every attempt: still a TIMEOUT run
 
+    def diag_fn(phase_record):
+      raise ValueError('diagnoser failed on the abandoned phase')
+
+    from openhtf.core import diagnoses_lib  # pylint: disable=g-import-not-at-top
+    import enum  # pylint: disable=g-import-not-at-top
+
+    class DR(diagnoses_lib.DiagResultEnum):
+      X = 'x'
+
+    raising_diag = diagnoses_lib.PhaseDiagnoser(DR, name='raising_diag')(diag_fn)
+
     @h.PhaseOptions(**topts)
     @h.measures(h.Measurement('m'))
     def timed(test):
@@ -216,7 +228,14 @@ def scenario_t(position, duration, after):
         log.append(('timed-start', t0))
       if duration == 'never':
         while True:
-          time.sleep(50.0)
+          try:
+            time.sleep(50.0)
+          except threads_mod.ThreadTerminationError:
+            if after != 'profiled':
+              raise
+            # (profiled config: a body stuck where the termination request cannot end it; it goes away with the run)
+            if log and log[-1][0] == 'run-over':
+              return None
       time.sleep(duration)
       log.append(('timed-woke', time.monotonic()))
       test.measurements.m = 1
@@ -231,6 +250,10 @@ def scenario_t(position, duration, after):
         if sum(1 for e in log if e[0] == 'attempt') < 3:
           return h.PhaseResult.REPEAT
       return h.PhaseResult.FAIL_AND_CONTINUE if after == 'fail' else None
+
+    if after == 'diagraise':
+      # the abandoned phase also has a diagnoser that fails on its (incomplete) record: still a TIMEOUT run
+      timed = h.diagnose(raising_diag)(timed)
 
     def other(test):
       log.append(('other', time.monotonic()))
@@ -284,7 +307,17 @@ def scenario_t(position, duration, after):
     recs = []
     test.add_output_callbacks(recs.append)
     t_begin = time.monotonic()
-    ok = test.execute()
+    if after == 'profiled':
+      import os, tempfile  # pylint: disable=g-import-not-at-top,multiple-imports
+      prof = os.path.join(tempfile.gettempdir(), 'vf-c12-prof-%d' % os.getpid())
+      try:
+        ok = test.execute(profile_filename=prof)
+      finally:
+        log.append(('run-over', time.monotonic()))
+        if os.path.exists(prof):
+          os.remove(prof)
+    else:
+      ok = test.execute()
     t_end = time.monotonic()
     rec = recs[0]
     return {'ok': ok, 'outcome': rec.outcome.name, 'log': log, 't_begin': t_begin, 't_end': t_end,
@@ -433,7 +466,8 @@ def t_configs(tier):
   for pos in ('plain', 'main', 'teardown'):
     cfgs += [(pos, 9.5, 'none'), (pos, 'never', 'none')]
   cfgs += [('plain', 9.999, 'fail'), ('plain', 25.0, 'measure'), ('main', 25.0, 'measure'), ('plain', 9.5, 'raise'), ('main', 9.5, 'raise'),
-           ('monitored', 'never', 'none'), ('main', 'never', 'repeat2'), ('plain', 6.0, 'repeat_ok')]
+           ('monitored', 'never', 'none'), ('main', 'never', 'repeat2'), ('plain', 6.0, 'repeat_ok'),
+           ('main', 'never', 'diagraise'), ('main', 'never', 'profiled')]
   if tier == 'thorough':
     cfgs += [('plain', 10.5, 'measure'), ('teardown', 25.0, 'fail'), ('main', 9.999, 'measure')]
   return cfgs
@@ -442,6 +476,7 @@ def t_configs(tier):
 def run(tier):
   rep = common.Report(PID, tier, 'model_checking')
   kb = 3 if tier == 'quick' else 5
+  explore.set_plan(common.thorough_budget(tier, 900.0), len(K_MODES) + len(t_configs(tier)))
   for mode in K_MODES:
     r = explore.explore('K:' + mode, lambda ch, mode=mode: execute_k(mode, ch), check_k(mode), kb, cap=400000)
     rep.merge_violations(r['violations'])
